@@ -4,7 +4,7 @@ usage: try_seeds.py <PROP> [<CHECKPROP> ...]   (default: check the property itse
 import glob, os, subprocess, sys
 prop = sys.argv[1]; checks = sys.argv[2:] or [prop]
 root = os.path.dirname(os.path.dirname(os.path.dirname(os.path.abspath(__file__))))
-for d in sorted(glob.glob(f'/tmp/mut/{prop}/out/[0-9]*')):
+for d in sorted(glob.glob(f'/tmp/mut/{prop}/' + os.environ.get('SEED_DIR', 'out') + '/[0-9]*')):
     pd = os.path.join(d, 'patch.diff')
     if not os.path.exists(pd):
         continue
